@@ -561,7 +561,28 @@ def run_anova(case, ctx, teneva):
     # must not change the model (the cores are a pure function of the model)
     if N <= 3000:
         try:
-            reps = [A.cores(r, 0.) for _ in range(3)]
+            reps = [A.cores(r, 0.)]
+            # the same request in other words: a relative noise of 0 (it
+            # overrides the absolute one), before and after a request with
+            # other options (noise, only_near) on the same object
+            reps.append(A.cores(r, 1., False, 0))
+            if order == 2 and d >= 3 and r >= 2:
+                try:
+                    A.cores(r, 0., True)      # neighbouring pairs only
+                    ctx.event('only_near-request-in-between')
+                except Exception:
+                    ctx.event('only_near-request-raised')
+            A.cores(r, 1e-3)
+            reps.append(A.cores(r, noise=0.))
+            if order == 2 and d >= 3 and r >= 2:
+                # a second fitted object whose FIRST request is the restricted
+                # one: its later default request is the full model again
+                A2 = teneva.ANOVA(I_arg, y_arg, order, seed=gseed)
+                try:
+                    A2.cores(r, 0., True)
+                except Exception:
+                    pass
+                reps.append(A2.cores(r, 0.))
         except Exception as ex:
             reps = None
             ctx.viol('object-history', f'repeated ANOVA.cores(r={r}, noise=0) '
